@@ -38,6 +38,35 @@ def run(prog, R, tier="quick", only_rule=None):
     c09d(prog, R)
     c09e(prog, R)
     rule_a(prog, R, "C09.A")
+    # the link of a pointer is credited to the table that holds it (write, then register)
+    from rules.props import c08
+    c08.c08d(prog, R, rid="C09.g")
+    c09h(prog, R)
+
+
+def c09h(prog, R):
+    """Who references a blob file is read from the tables' link sections; if that read fails the answer is unknown, not
+    `nobody`: every consumer must propagate the error (a swallowed error makes a referenced file look unreferenced: it is
+    rewritten / dropped while a table still points into it, or its garbage is not accounted)."""
+    from rules.engine import result_fate, TRY_BRANCH
+    r = R.rule("C09.h", "a failed read of a table's blob links is never taken for `no links`", "E")
+    n = 0
+    for p, f in sorted(prog.fns.items()):
+        if f.derived:
+            continue
+        for c in f.calls:
+            if c.sres != "table::Table::list_blob_file_references" or not c.dest:
+                continue
+            n += 1
+            fates = result_fate(f, c)
+            sw = sorted(x for x in fates if x.startswith("swallowed"))
+            ok = not sw or bool(fates & {"propagated", "returned", "panics"})
+            r.check(ok, "%s|propagates the error of list_blob_file_references" % prog.fns.get(f.root, f).path,
+                    "the error of reading a table's blob links is dropped (%s) and the table is treated as referencing nothing"
+                    % ", ".join(sw), f.where(c.bb), str(sorted(fates)))
+    if n < 3:
+        r.anchor_missing("list_blob_file_references call sites (found %d, confirmed 3)" % n)
+    r.floor(3)
 
 
 def accumulated_fields(f, adt):
